@@ -97,6 +97,7 @@ type VC struct {
 	consts   map[string]string // heap locations known to hold a literal
 	allocRefs map[string]bool // ref terms of objects allocated in this VC
 	shadow   map[string]*SV  // interface values stored at constant cells of local objects (metadata only)
+	lastRSA  *rsaCall // the most recent rsa.VerifyPKCS1v15 call (ghost capture for contracts)
 	boxedTypes []types.Type // concrete types put into interfaces so far (candidates for loaded interface values)
 	hyps     []*hyp // quantified hypotheses, instantiated per obligation
 	instantiating bool
@@ -424,4 +425,9 @@ func (vc *VC) infeasible(cond, note string) bool {
 	vc.obls = append(vc.obls, o)
 	vc.assume(not(cond))
 	return true
+}
+
+type rsaCall struct {
+	ok       string
+	key, sig *SV
 }
